@@ -96,7 +96,9 @@ structure Loop where
 /-- Phase of the holder of the lifecycle lock. -/
 inductive CPhase
   | stopping   -- cancelled the loop, waiting for `done`
-  | connA | connB
+  /-- connecting the endpoints (`creating`: on behalf of `newSession`, which
+  writes the files and registers the session afterwards). -/
+  | connA (creating : Bool) | connB (creating : Bool)
   deriving DecidableEq, Repr
 
 inductive TPhase
@@ -137,11 +139,13 @@ structure State where
   sync : Bool
   flushQ : Option Nat
   threads : List Thread
+  /-- identifiers of all calls issued so far (a call is never re-issued). -/
+  used : List Nat
   deriving DecidableEq, Repr
 
 def init (watch : Bool) : State :=
   { watch := watch, sess := none, arch := none, entry := false, disabled := false, running := false,
-    crit := none, loop := none, gen := 0, sync := false, flushQ := none, threads := [] }
+    crit := none, loop := none, gen := 0, sync := false, flushQ := none, threads := [], used := [] }
 
 def newLoop (pc : LPC) (held : Bool) : Loop :=
   { pc := pc, a := 0, b := 0, ha := held, hb := held, cancelled := false, req := none, forced := false,
@@ -308,7 +312,7 @@ def acquire (s : State) (th : Thread) : List State :=
       (match s.loop with
        | some l => if l.connected then [] else [stop]
        | none => [stop])
-    else [({ s with sess := some false, crit := some (th.id, .connA) }).setThread { th with ph := .inside }]
+    else [({ s with sess := some false, crit := some (th.id, .connA false) }).setThread { th with ph := .inside }]
   | .reset =>
     if s.disabled then [finish s th .disabled]
     else if s.running then [stop]
@@ -327,26 +331,49 @@ def afterStop (s : State) (th : Thread) : List State :=
   | .pause => [finish { s with sess := some true, crit := none } th .ok]
   | .terminate =>
     [({ s with disabled := true, sess := none, arch := none, crit := none }).setThread { th with ph := .termDel }]
-  | .resume => [{ s with sess := some false, crit := some (th.id, .connA) }]
-  | .reset => [{ s with sess := some false, arch := some false, crit := some (th.id, .connA) }]
+  | .resume => [{ s with sess := some false, crit := some (th.id, .connA false) }]
+  | .reset => [{ s with sess := some false, arch := some false, crit := some (th.id, .connA false) }]
   | .restart => [({ s with disabled := true, crit := none }).setThread { th with ph := .reload }]
   | _ => []
 
-def othersIdle (s : State) (t : Nat) : Bool := s.threads.all fun x => x.id == t
+def othersIdle (s : State) (_t : Nat) : Bool := s.threads.length == 1
+
+def Op.isFlush : Op → Bool
+  | .flush _ => true
+  | _ => false
+
+def Op.isWaitingFlush : Op → Bool
+  | .flush true => true
+  | _ => false
+
+def Op.isTerminate : Op → Bool
+  | .terminate => true
+  | _ => false
+
+def Op.isRestart : Op → Bool
+  | .restart => true
+  | _ => false
+
+/-- The calls that connect endpoints while holding the lifecycle lock. -/
+def Op.connects : Op → Bool
+  | .resume | .reset | .create _ => true
+  | _ => false
 
 def threadSteps (s : State) (th : Thread) : List (Label × State) :=
   match th.ph with
   | .pending =>
     match th.op with
     | .create paused =>
-      if s.entry || s.sess.isSome then [(.tau, finish s th .noMatch)]
+      -- (a session is created once, before any other call on it is issued)
+      if !othersIdle s th.id || s.crit.isSome || s.loop.isSome then []
+      else if s.entry || s.sess.isSome then [(.tau, finish s th .noMatch)]
       else if paused then
         [(.tau, finish { s with sess := some true, arch := some false, entry := true, disabled := false, running := false } th .ok)]
-      else if s.crit.isNone then
-        [(.tau, ({ s with crit := some (th.id, .connA), disabled := false }).setThread { th with ph := .inside })]
-      else []
+      else
+        [(.tau, ({ s with crit := some (th.id, .connA true), disabled := false, running := false }).setThread { th with ph := .inside })]
     | .restart =>
-      if !othersIdle s th.id then []
+      -- (Manager.Shutdown takes each controller's lifecycle lock)
+      if !othersIdle s th.id || s.crit.isSome then []
       else if !s.entry || s.disabled then [(.tau, s.setThread { th with ph := .reload })]
       else if s.running then
         [(.tau, ({ s with crit := some (th.id, .stopping) }.cancelLoop).setThread { th with ph := .inside })]
@@ -362,25 +389,27 @@ def threadSteps (s : State) (th : Thread) : List (Label × State) :=
       if t != th.id then [] else
       match ph with
       | .stopping => if s.loop.isNone then (afterStop s th).map fun s' => (.tau, s') else []
-      | .connA => [(.ep (.conn .alpha), { s with crit := some (t, .connB) })]
-      | .connB =>
+      | .connA c => if !th.op.connects then [] else [(.ep (.conn .alpha), { s with crit := some (t, .connB c) })]
+      | .connB c =>
+        if !th.op.connects then [] else
         -- both endpoints connected: (create: save the files, register), start the loop
-        let s1 : State := match th.op with
-          | .create _ => { s with sess := some false, arch := some false, entry := true }
-          | _ => s
+        let s1 : State := if c then { s with sess := some false, arch := some false, entry := true } else s
         [(.ep (.conn .beta), finish ({ s1 with crit := none }.startLoop .connA true) th .ok)]
     | none => []
-  | .termDel => [(.tau, finish { s with entry := false } th .ok)]
+  | .termDel => if !th.op.isTerminate then [] else [(.tau, finish { s with entry := false } th .ok)]
   | .reload =>
-    -- NewManager: load what is on disk
+    -- NewManager: load what is on disk into a fresh controller (the old one was
+    -- shut down: no loop, lock free)
+    if s.loop.isSome || s.crit.isSome || !othersIdle s th.id || !th.op.isRestart then [] else
     match s.sess with
     | some p =>
       let s1 : State := { s with entry := true, disabled := false, running := false, crit := none }
       [(.tau, finish (if p then s1 else s1.startLoop .connA false) th .ok)]
     | none => [(.tau, finish { s with entry := false } th .ok)]
   | .fsend g =>
+    if !th.op.isFlush then [] else
     let live := s.loop.isSome && s.gen == g
-    let wait := th.op == .flush true
+    let wait := th.op.isWaitingFlush
     (if live && s.flushQ.isNone then
       [(.tau, if wait then { s with flushQ := some th.id }.setThread { th with ph := .fwait g }
               else finish { s with flushQ := some th.id } th .ok)]
@@ -388,6 +417,7 @@ def threadSteps (s : State) (th : Thread) : List (Label × State) :=
     (if !live || !s.sync then [(.tau, finish s th .lost)] else []) ++
     (if !wait && !(live && s.flushQ.isNone) then [(.tau, finish s th .ok)] else [])
   | .fwait g =>
+    if !th.op.isWaitingFlush then [] else
     let live := s.loop.isSome && s.gen == g
     (if th.answered then [(.tau, finish s th .ok)] else []) ++
     (if !live || !s.sync then [(.tau, finish s th .lost)] else [])
@@ -400,13 +430,18 @@ def succ (s : State) : List (Label × State) :=
 
 /-- A client issues a call. -/
 def doCall (s : State) (t : Nat) (op : Op) : Option State :=
-  if s.threads.any (fun x => x.id == t || x.op == .restart) then none
-  else some { s with threads := s.threads ++ [mkThread t op] }
+  if s.used.contains t || s.threads.any (fun x => x.op == .restart) then none
+  else some { s with threads := s.threads ++ [mkThread t op], used := t :: s.used }
 
 /-- The step relation. -/
 inductive Step : State → Label → State → Prop
   | call {s t op s'} : doCall s t op = some s' → Step s (.call t op) s'
   | internal {s l s'} : (l, s') ∈ succ s → Step s l s'
+
+/-- Runs: sequences of steps with their labels (invisible steps included). -/
+inductive Run : State → List Label → State → Prop
+  | nil (s) : Run s [] s
+  | snoc {s tr s' l s''} : Run s tr s' → Step s' l s'' → Run s (tr ++ [l]) s''
 
 def Label.isEndpoint : Label → Bool
   | .ep _ => true
